@@ -22,13 +22,19 @@ fn emit(key: &str, val: u64) {
     println!("@@{{\"t\":\"digest\",\"key\":{},\"val\":\"{val:016x}\"}}", crate::ctx::json_str(key));
 }
 
-fn history_digest<K: BoolKind>(ctx: &mut Ctx, hseed: u64, steps: usize, nvars: u32, threads: u32, label: &str) -> u64
+fn history_digest<K: BoolKind>(ctx: &mut Ctx, hseed: u64, steps: usize, nvars: u32, threads: u32, depth: Option<Option<u32>>, label: &str) -> u64
 where
     for<'id> MgrOf<'id, K>: HasWorkers,
     for<'x> INodeOfFunc<'x, K::F>: HasLevel,
 {
     let mut rng = Rng::new(hseed);
-    let mut w = World::<K>::new(1 << 15, 1 << 8, threads, nvars, format!("{label} threads={threads}"));
+    let mut w = World::<K>::new(1 << 15, 1 << 8, threads, nvars, format!("{label} threads={threads} split_depth={depth:?}"));
+    if let Some(d) = depth {
+        // None = OxiDD's automatic depth; Some(k): parallel recursion for k levels, then the
+        // hand-over to the sequential recursor in the middle of the diagram
+        use oxidd::WorkerPool;
+        w.mref.with_manager_shared(|m| m.workers().set_split_depth(d));
+    }
     w.digest = Some(Vec::new());
     let profile = Profile {
         reorder: K::SEM != Sem::ZeroSup || crate::known::ZBDD_REORDER_IN_HISTORIES,
@@ -70,12 +76,23 @@ where
         let nvars = 3 + (h % 4) as u32;
         let label = format!("c20 kind={} h={h}", K::NAME);
         println!("@@{{\"t\":\"case\",\"case\":{}}}", crate::ctx::json_str(&label));
-        let d1 = history_digest::<K>(ctx, hseed, steps, nvars, 1, &label);
-        for threads in [2u32, 8] {
-            let d = history_digest::<K>(ctx, hseed, steps, nvars, threads, &label);
+        let d1 = history_digest::<K>(ctx, hseed, steps, nvars, 1, None, &label);
+        // split depth MAX (setup's default for > 1 thread), then the shallow depths at which the
+        // parallel recursor hands over to the sequential one below the root, and the automatic depth
+        let configs: [(u32, Option<Option<u32>>); 6] = [
+            (2, None),
+            (8, None),
+            (2, Some(Some(1))),
+            (8, Some(Some(2))),
+            (if h % 2 == 0 { 2 } else { 8 }, Some(Some(0))),
+            (if h % 2 == 0 { 8 } else { 2 }, Some(None)),
+        ];
+        for (threads, depth) in configs {
+            let d = history_digest::<K>(ctx, hseed, steps, nvars, threads, depth, &label);
             ctx.eval();
+            ctx.distinct((K::NAME, "config", threads, depth));
             if d != d1 {
-                ctx.violation(&format!("{}:threads-change-result", K::NAME), format!("{label}: digest with {threads} threads differs from 1 thread"));
+                ctx.violation(&format!("{}:threads-change-result", K::NAME), format!("{label}: digest with {threads} threads, split depth {depth:?} (outer None = MAX) differs from 1 thread"));
             }
         }
         emit(&format!("hist:{}:{h}", K::NAME), d1);
